@@ -1,0 +1,10 @@
+//go:build verif
+
+package base
+
+import "github.com/cloudwego/gopkg/internal/testutils/netpoll"
+
+// VerifDirectWriter re-exports the repository's reference NocopyWriter (the test utility that
+// records WriteDirect calls and splices them back) so that the verification harness, which
+// lives outside this module, can run it unchanged (C15).
+type VerifDirectWriter = netpoll.NetpollDirectWriter
